@@ -54,15 +54,7 @@ def argsOk (a : Args) : Bool :=
     let pr := a.trs.getD l (⟨0, #[]⟩, ⟨0, #[]⟩)
     Dist.okMat pr.1 pl pn && Dist.okMat pr.2 pn pl && decide (pl.sum > ce))
 
-def policy (a : Args) : DPolicy Rat :=
-  { transfer := fun l _ _ =>
-      match a.trs[l]? with
-      | some (P, R) =>
-        let pl := a.parts.getD l []
-        let pn := a.parts.getD (l + 1) []
-        (split P pl pn, split R pn pl, pn)
-      | none => ([], [], []),
-    coarseOp := dgalerkin }
+def policy (a : Args) : DPolicy Rat := givenPolicy a.trs a.parts
 
 def run (a : Args) (dsm : DSmoother Rat (Vec Rat)) : String :=
   let p0 := a.parts.headD []
